@@ -14,8 +14,8 @@
 (* monotone / in-range addresses for every program, sequences consistent)  *)
 (* and prints one replay case with the expected observation.               *)
 EXTENDS LineSM, Json
-CONSTANTS FullLen, CoreLen, FmtLen, Tuples
-VARIABLES h, p
+CONSTANTS FullLen, CoreLen, OpcLen, FmtLen, WideLen, Tuples, Modes
+VARIABLES m, h, p
 
 Str(s) == s     \* byte strings are written as tuples of bytes
 U64Max == Ones(8)
@@ -104,14 +104,15 @@ TabMeaning(H, T) ==
 TabT == TLCEval([k \in 1..Len(HT) |-> TabMeaning(HT[k], Tab(HT[k]))])
 
 Exp(TM, S, D, RR) ==
-    [hdr |-> TM.hdr, wf |-> D.wf, end |-> S.end, rows |-> S.rows, dirs |-> TM.dirs, files0 |-> TM.files,
+    [hdr |-> TM.hdr, wf |-> D.wf, merged |-> S.merged, end |-> S.end, rows |-> S.rows, dirs |-> TM.dirs, files0 |-> TM.files,
      files |-> TM.files \o [k \in 1..Len(S.files) |-> FileMeaningDef(S.files[k])],
      seqs |-> [k \in 1..Len(RR) |-> [start |-> S.seqs[k].start, end |-> S.seqs[k].end, rows |-> RR[k].rows]]]
 
 (* design-level lemmas on one program *)
 Lemmas(H, S, D, RR) ==
     /\ AsCodedEqualsStd(S, D)
-    /\ Monotone(S.rows) /\ InRange(S.rows, H.asz)
+    /\ (Monotone(S.rows) \/ S.merged) /\ InRange(S.rows, H.asz)
+    /\ (D.wf => ~S.merged)
     /\ SequencesConsistent(S, RR)
 
 (* hdr = EncHeaderBody(H, T), TM = TabMeaning(H, T), b = program bytes *)
@@ -126,7 +127,7 @@ Check(kind, H, hdr, TM, b) ==
 (* prog *)
 InitProg == h \in Tuples /\ p = <<>>
 NextProg ==
-    /\ h' = h
+    /\ UNCHANGED <<m, h>>
     /\ \/ Len(p) < FullLen /\ \E s \in FullT[h] : p' = Append(p, s)
        \/ Len(p) >= FullLen /\ Len(p) < CoreLen /\ (\A k \in DOMAIN p : p[k] \in CoreT[h])
           /\ \E s \in CoreT[h] : p' = Append(p, s)
@@ -137,15 +138,17 @@ InvProg == \E H \in {HT[h]} : \E b \in {ProgBytes(p)} :
            /\ Check("prog", H, HdrT[h], TabT[h], b)
 
 (*------------------------------------------------------------------------*)
-(* opc: p = <<prefix index, opcode byte, tail index>> *)
+(* opc: p = <<prefix index, opcode byte, tail index>>; OpcLen (1..3) =       *)
+(* number of prefixes used; all tails when OpcLen >= 2                     *)
 Prefixes(H) == << <<>>, Enc(H, IV("set_address", Nat8(32)), <<>>) \o Enc(H, IV("set_discriminator", Nat8(3)), <<>>),
                   Enc(H, IV("set_address", Nat8(255)), <<>>) >>
 Tails == << <<>>, <<131, 1, 5, 129, 0, 2, 1, 1>>, <<255, 255, 255, 255, 255, 255, 255, 255, 255, 1, 1>>,
             <<128>>, <<2, 1, 0, 1, 1>> >>
 PrefixT == TLCEval([k \in 1..Len(HT) |-> Prefixes(HT[k])])
-InitOpc == h \in Tuples /\ p = <<>>
-NextOpc == /\ h' = h /\ p = <<>>
-           /\ \E i \in 1..3 : \E o \in 0..255 : \E t \in 1..Len(Tails) : p' = <<i, o, t>>
+InitOpc == h \in Tuples \cup {7} /\ p = <<>>
+NextOpc == /\ UNCHANGED <<m, h>> /\ p = <<>>
+           /\ \E i \in 1..OpcLen : \E o \in 0..255 :
+              \E t \in (IF OpcLen >= 2 THEN 1..Len(Tails) ELSE {2, 3, 4}) : p' = <<i, o, t>>
 InvOpc == p # <<>> =>
            \E H \in {HT[h]} : \E b \in {PrefixT[h][p[1]] \o <<p[2]>> \o Tails[p[3]]} :
            Check("opc", H, HdrT[h], TabT[h], b)
@@ -168,7 +171,7 @@ InitWide == h \in 1..Len(WideHT) /\ p = <<>>
 WideT == TLCEval([k \in 1..Len(WideHT) |-> {WithBytes(WideHT[k], s) : s \in WideSyms(WideHT[k])}])
 WideHdrT == TLCEval([k \in 1..Len(WideHT) |-> EncHeaderBody(WideHT[k], Tab(WideHT[k]))])
 WideTabT == TLCEval([k \in 1..Len(WideHT) |-> TabMeaning(WideHT[k], Tab(WideHT[k]))])
-NextWide == h' = h /\ Len(p) < FullLen /\ \E s \in WideT[h] : p' = Append(p, s)
+NextWide == UNCHANGED <<m, h>> /\ Len(p) < WideLen /\ \E s \in WideT[h] : p' = Append(p, s)
 InvWide == \E H \in {WideHT[h]} : \E b \in {ProgBytes(p)} :
            /\ (p # <<>> => RoundTrip(H, p[Len(p)]))
            /\ Check("wide", H, WideHdrT[h], WideTabT[h], b)
@@ -218,7 +221,7 @@ SimpleFmt == <<<<Nat8(LNCT_path), F_string>>>>
 
 InitHdr == h \in 1..Len(HdrHT) /\ p = <<>>
 NextHdr ==
-    /\ h' = h /\ p = <<>>
+    /\ UNCHANGED <<m, h>> /\ p = <<>>
     /\ IF HdrHT[h].ver <= 4
        THEN \E d \in V4Dirs : \E f \in V4Files : p' = [T |-> [dirs |-> d, files |-> f]]
        ELSE \/ \E f \in Formats : \E n \in 0..2 :       \* file entry formats
@@ -231,4 +234,11 @@ InvHdr == p # <<>> =>
            \E H \in {HdrHT[h]} : \E b \in {HdrProg(HdrHT[h])} :
            /\ (H.ver >= 5 => FormatOk(p.T.dfmt) /\ FormatOk(p.T.ffmt))
            /\ \E hdr \in {EncHeaderBody(H, p.T)} : \E TM \in {TabMeaning(H, p.T)} : Check("hdr", H, hdr, TM, b)
+
+(*------------------------------------------------------------------------*)
+(* all models in one run: m selects the model *)
+Init == \E md \in Modes : m = md /\ CASE md = "prog" -> InitProg [] md = "opc" -> InitOpc
+                                          [] md = "wide" -> InitWide [] md = "hdr" -> InitHdr
+Next == CASE m = "prog" -> NextProg [] m = "opc" -> NextOpc [] m = "wide" -> NextWide [] m = "hdr" -> NextHdr
+Inv == CASE m = "prog" -> InvProg [] m = "opc" -> InvOpc [] m = "wide" -> InvWide [] m = "hdr" -> InvHdr
 =============================================================================
